@@ -929,7 +929,7 @@ class Frequency(float):
         tuc = time_unit_conversion
         scale_factor = (float(tuc['s']) / tuc[time_unit])
 
-        return np.int64((1 / self) * scale_factor)
+        return np.int64(np.round((1 / self) * scale_factor))
 
 
 ##Time-series:
